@@ -624,6 +624,28 @@ func (r *FnRun) mapUpdate(fr *Frame, st *State, x *ssa.MapUpdate) {
 	m := termOf(r.val(fr, st, x.Map))
 	r.oblige("NIL", r.e.describe(fr.fn, x), Not(Eq(m, IntLit(0))), st)
 	k := r.keyTerm(r.val(fr, st, x.Key))
+	if fr.c != nil && fr.old != nil && len(fr.c.UpdateRequires) > 0 {
+		if u, ok := x.Map.(*ssa.UnOp); ok {
+			if fa, ok := u.X.(*ssa.FieldAddr); ok {
+				if pt, ok := under(fa.X.Type()).(*types.Pointer); ok {
+					if stt, ok := under(pt.Elem()).(*types.Struct); ok {
+						name := stt.Field(fa.Field).Name()
+						for _, cl := range fr.c.UpdateRequires[name] {
+							cenv := r.invEnv(fr, st)
+							cenv.vars = map[string]Val{}
+							for kk, v := range fr.env {
+								cenv.vars[kk] = v
+							}
+							cenv.vars["argkey"] = r.val(fr, st, x.Key)
+							cenv.vars["argvalue"] = r.val(fr, st, x.Value)
+							cenv.what = "updaterequires " + name + " " + cl.Label
+							r.obligeClause("PRE", fmt.Sprintf("update of %s@%s:%s", name, r.e.describe(fr.fn, x), cl.Label), cl.E, cenv, st)
+						}
+					}
+				}
+			}
+		}
+	}
 	_, vt := r.mapKeys(mt)
 	dk, dom := r.mapDom(st, mt)
 	nd := r.fresh("md", dom.Sort)
@@ -765,6 +787,16 @@ func (r *FnRun) selectOp(fr *Frame, st *State, x *ssa.Select) Val {
 	}
 	r.assume(And(Le(IntLit(lo), idx), Lt(idx, IntLit(int64(n)))))
 	res := TupleVal{idx, r.fresh("recv_ok", SBool)}
+	for i, s := range x.States {
+		// the chosen case is one channel operation: counted per channel when
+		// the contracts declare "ghost recvs(ref) int" / "ghost sends(ref) int"
+		chosen := Eq(idx, IntLit(int64(i)))
+		if s.Dir == types.RecvOnly {
+			r.countChanOp(st, "recvs", r.val(fr, st, s.Chan), chosen)
+		} else {
+			r.countChanOp(st, "sends", r.val(fr, st, s.Chan), chosen)
+		}
+	}
 	for _, s := range x.States {
 		if s.Dir == types.RecvOnly {
 			res = append(res, r.freshVal(st, under(s.Chan.Type()).(*types.Chan).Elem(), "recv"))
